@@ -2247,8 +2247,8 @@ def rule_eqsize(rep, inst, R="C03.cover"):
     whatever their blocks - a view over a prefix of the same memory included)"""
     d = inst.d
     for cname, kind, fn in inst.fns:
-        if cname != "xdynamic_bitset_base" or fn.get("name") != "operator==":
-            continue
+        if fn.get("name") != "operator==" or not ir.params(fn) or cname not in ("xdynamic_bitset_base", "xdynamic_bitset", "xdynamic_bitset_view"):
+            continue        # the base class's operator and any overload a derived container class puts in front of it
         lab = label(cname, kind, fn, inst)
         try:
             paths = flow.function_paths(fn, with_ctor_inits=False)
@@ -2297,6 +2297,9 @@ def rule_eqsize(rep, inst, R="C03.cover"):
             else:
                 # a computed answer: it must contain the size comparison itself
                 if not any(size_eq(x, True) for x in ir.subterms(rv) if isinstance(x, tuple)):
+                    if rv[0] == "bin" and rv[1] == "==" and all("m_buffer" in ir.show(x) for x in (rv[2], rv[3])):
+                        bad = bad or (end[1], "the answer is `%s` alone: equal block buffers do not make equal sizes (bitsets of 2 and of 3 bits with the same single block)" % ir.show(rv)[:60])
+                        continue
                     undecided = undecided or (end[1], "the answer `%s` is computed on a path that did not compare the sizes" % ir.show(rv)[:50])
         if bad:
             rep.violates(R, lab, "equal only if the sizes are equal", where=d.where(bad[0]), detail=bad[1])
